@@ -171,7 +171,8 @@ impl Notify {
         // Notify all waiters, including those not yet enabled
         let waiters = std::mem::take(&mut state.waiters);
         trace!("notify_waiters for {:p} notifying waiters {:?}", self, waiters);
-        state.pending = false;
+        // A permit stored by an earlier `notify_one` is left alone, as in tokio: `notify_waiters` only wakes
+        // the waiters that exist now, it neither stores nor consumes a permit.
         drop(state);
         // Since we have removed all the waiters, we need to clear all the
         // flags first, before waking any of them.  This is because sending
